@@ -76,12 +76,15 @@ package vgirpc
 //
 //@ func enforceResponseBudgets
 //@   property C19
+//@   modifies nothing
 //@   ensures [decision] (result == nil) <==> ((wireCap <= 0 || wireBytes <= wireCap) && (externalCap <= 0 || externalBytes <= externalCap))
 //@   ensures [wirefirst] wireCap > 0 && wireBytes > wireCap ==> typeof(result) != *externalCapError
 //@   ensures [extkind] (wireCap <= 0 || wireBytes <= wireCap) && result != nil ==> typeof(result) == *externalCapError
 //
 //@ func newExternalCapError
 //@   property C19
+//@   fresh
+//@   modifies nothing
 //@   ensures result != nil
 //
 //@ func (*HttpServer).checkExternalBudget
@@ -127,3 +130,35 @@ package vgirpc
 //@   property C19
 //@   # (the first turn may start above the cap: header and init logs are already in the buffer)
 //@   loop 0 invariant [softcap] firstTick || h.maxResponseBytes <= 0 || wireBytes < h.maxResponseBytes
+
+// ---- C19, the unary and exchange call sites: the bytes measured against max_response_bytes are
+// the length of the very buffer that is then sent, both configured caps are the ones handed to
+// the check, a body goes out with status 200 only when the check passed (so, with a wire cap
+// set, the body sent is at most the cap), and an overshoot is answered by the cap-error writer
+// with the check's own error. ----
+//
+//@ func (*HttpServer).handleUnary
+//@   property C19
+//@   pathflag budgetOK
+//@   pathvar measured int
+//@   at call (*bytes.Buffer).Len setflag measured result
+//@   at call enforceResponseBudgets setflag budgetOK result == nil
+//@   pathvar budgetErr error
+//@   at call enforceResponseBudgets setflag budgetErr result
+//@   at call enforceResponseBudgets assert [caps] arg1 == measured && arg2 == externalBytesWritten && arg3 == h.maxResponseBytes && arg4 == h.maxExternalizedResponseBytes
+//@   at call (*HttpServer).writeArrow after enforceResponseBudgets assert [within] budgetOK && arg2 == 200 && len(arg3) == measured && (h.maxResponseBytes > 0 ==> len(arg3) <= h.maxResponseBytes)
+//@   at call (*HttpServer).writeUnaryCapError#1 assert [preflight] h.maxExternalizedResponseBytes > 0 && predicted > h.maxExternalizedResponseBytes && arg5 != nil && typeof(arg5) == *externalCapError
+//@   at call newExternalCapError assert [preflightargs] arg1 == predicted && arg2 == h.maxExternalizedResponseBytes
+//@   at call (*HttpServer).writeUnaryCapError after enforceResponseBudgets assert [replaced] !budgetOK && arg5 == budgetErr && arg5 != nil
+//
+//@ func (*HttpServer).handleExchangeCall
+//@   property C19
+//@   pathflag budgetOK
+//@   pathvar measured int
+//@   at call (*bytes.Buffer).Len setflag measured result
+//@   at call enforceResponseBudgets setflag budgetOK result == nil
+//@   pathvar budgetErr error
+//@   at call enforceResponseBudgets setflag budgetErr result
+//@   at call enforceResponseBudgets assert [caps] arg1 == measured && arg2 == externalBytes && arg3 == h.maxResponseBytes && arg4 == h.maxExternalizedResponseBytes
+//@   at call (*HttpServer).writeArrow after enforceResponseBudgets assert [within] budgetOK && arg2 == 200 && len(arg3) == measured && (h.maxResponseBytes > 0 ==> len(arg3) <= h.maxResponseBytes)
+//@   at call (*HttpServer).writeExchangeCapError after enforceResponseBudgets assert [replaced] !budgetOK && arg4 == budgetErr && arg4 != nil
